@@ -109,6 +109,18 @@ def build(g, parser, lexer):
     return with_timeout(lambda: Lark(g, parser=parser, lexer=lexer), 30)
 
 
+def lalr_conflict_free(rules, ts):
+    """The LALR claims of C08 (like C02's completeness) are about conflict-free grammars: with a shift/reduce
+    conflict resolved as shift the parser's language is smaller than the grammar's. strict=True makes lark raise."""
+    from lark import Lark
+    from lark.exceptions import GrammarError, LexError
+    try:
+        with_timeout(lambda: Lark(C.to_lark(rules, ts), parser='lalr', strict=True), 30)
+        return True
+    except (GrammarError, LexError):
+        return False
+
+
 def correspond(ctx):
     from lark.exceptions import GrammarError
     rng = ctx.rng
@@ -129,11 +141,14 @@ def correspond(ctx):
         inputs = [w for n in range(0, 5) for w in itertools.product(ts_used + ['z'], repeat=n)]
         rng.shuffle(inputs)
         inputs = inputs[:ctx.scale(40, 160)]
+        lalr_ok = lalr_conflict_free(rules, ts_used)
         for parser, lexer in ENGINES:
+            if parser == 'lalr' and not lalr_ok:
+                continue       # shift/reduce or reduce/reduce conflict: outside the LALR claims
             try:
                 p = build(g, parser, lexer)
             except GrammarError:
-                continue       # not LALR (conflict) - C02's business
+                continue
             except Timeout:
                 ctx.violation('construct-hang', {'grammar': g, 'parser': parser, 'lexer': lexer}, True, 'parser construction hangs')
                 continue
@@ -156,6 +171,7 @@ def correspond(ctx):
                 if msg:
                     ctx.violation('rejection', {'grammar': g, 'parser': parser, 'lexer': lexer, 'text': text,
                                                 'rules': [[a, list(r)] for a, r in rules], 'terminals': ts_used}, True, msg)
+    custom_lexer_stream(ctx)
     # CYK: ParseError, never something else
     try:
         from lark import Lark
@@ -192,8 +208,143 @@ def correspond(ctx):
                               key='F10:nonproductive-rule-delays-error')
 
 
+def custom_lexer_stream(ctx):
+    """LALR with a custom lexer class and with a token-rewriting postlexer: tokens carry coordinates the parser
+    cannot recompute, so `$END` (proper prefix of a sentence) must borrow those of the last token it was fed and a
+    mid-stream error must report the offending token itself."""
+    from lark import Lark, Token
+    from lark.lexer import Lexer
+    from lark.exceptions import GrammarError, UnexpectedInput, UnexpectedToken
+    rng = ctx.rng
+    fed = []
+
+    class ListLexer(Lexer):
+        def __init__(self, lexer_conf):
+            pass
+
+        def lex(self, data):
+            del fed[:]
+            for t in data:
+                fed.append(t)
+                yield t
+
+    class Doubler:
+        """postlexer: every token of type X2 is replaced by two X tokens with their own coordinates"""
+        always_accept = ()
+
+        def process(self, stream):
+            del fed[:]
+            for t in stream:
+                fed.append(t)
+                yield t
+
+    done = 0
+    for _ in range(ctx.scale(60, 400)):
+        rules, ts = C.gen_cfg(rng, nullable=0.15)
+        prod = C.productive(rules, ts)
+        if any(a not in prod or any(x not in prod for x in rhs) for a, rhs in rules):
+            continue
+        reach = C.reachable(rules)
+        rules = [r for r in rules if r[0] in reach]
+        ts_used = [t for t in ts if any(t in rhs for _, rhs in rules)]
+        if not ts_used:
+            continue
+        by = {}
+        for a, rhs in rules:
+            by.setdefault(a, []).append(' '.join(rhs))
+        g = '\n'.join('%s: %s' % (a, ' | '.join(alts)) for a, alts in by.items()) + '\n%declare ' + ' '.join(ts_used) + '\n'
+        if not lalr_conflict_free(rules, ts_used):
+            continue
+        try:
+            p = with_timeout(lambda: Lark(g, parser='lalr', lexer=ListLexer), 30)
+        except GrammarError:
+            continue
+        import itertools as it
+        words = [w for n in range(1, 5) for w in it.product(ts_used, repeat=n)]
+        rng.shuffle(words)
+        for w in words[:ctx.scale(25, 80)]:
+            toks = list(w)
+            if C.accepts(rules, toks):
+                continue
+            vl = C.viable_len(rules, ts_used, toks)
+            line = rng.randint(2, 9)
+            data = []
+            for i, ty in enumerate(toks):
+                col = 7 * i + rng.randint(1, 3)
+                data.append(Token(ty, ty.lower(), start_pos=100 + 3 * i, line=line + i // 2, column=col,
+                                  end_line=line + i // 2, end_column=col + 1, end_pos=101 + 3 * i))
+            try:
+                with_timeout(lambda: p.parse(data))
+                bad = 'accepted a non-sentence'
+            except UnexpectedToken as e:
+                bad = None
+                if vl == len(toks):
+                    last = data[-1]
+                    if e.token.type != '$END':
+                        bad = 'proper prefix of a sentence: expected $END, got %s' % e.token.type
+                    elif (e.line, e.column, e.pos_in_stream) != (last.line, last.column, last.start_pos) or \
+                            (e.token.end_line, e.token.end_column, e.token.end_pos) != (last.end_line, last.end_column, last.end_pos):
+                        bad = '$END carries (%s,%s,%s), last token fed was at (%s,%s,%s)' % (
+                            e.line, e.column, e.pos_in_stream, last.line, last.column, last.start_pos)
+                else:
+                    off = data[vl]
+                    if e.token is not off and (e.token.type, e.line, e.column) != (off.type, off.line, off.column):
+                        bad = 'error reported at (%s,%s) type %s; first offending token is %s at (%s,%s)' % (
+                            e.line, e.column, e.token.type, off.type, off.line, off.column)
+            except UnexpectedInput as e:
+                bad = 'raised %s for a token-level error' % type(e).__name__
+            except Timeout:
+                bad = 'hang'
+            except Exception as e:  # noqa
+                bad = 'raised %s instead of an UnexpectedInput subclass' % type(e).__name__
+            ctx.count('custom-lexer', key=(g, tuple(toks)), nontrivial=vl >= 1, custom_eof=(vl == len(toks)))
+            done += 1
+            if bad:
+                ctx.violation('custom-lexer', {'grammar': g, 'tokens': toks, 'kind': 'custom-lexer',
+                                               'rules': [[a, list(r)] for a, r in rules], 'terminals': ts_used}, True, bad)
+    # postlexer that rewrites tokens (fixed scenario; coordinates of the split tokens are its own)
+    gs = 'start: A B B C\nA: "a"\nBB: "bb"\nC: "c"\n%declare B\n%ignore " "\n'
+
+    class SplitBB:
+        always_accept = ('BB',)
+
+        def process(self, stream):
+            del fed[:]
+            for t in stream:
+                if t.type == 'BB':
+                    for k in (0, 1):
+                        x = Token('B', 'b', t.start_pos + k, t.line, t.column + k, t.line, t.column + k + 1, t.start_pos + k + 1)
+                        fed.append(x)
+                        yield x
+                else:
+                    fed.append(t)
+                    yield t
+    for lexer in ('basic', 'contextual'):
+        p = Lark(gs, parser='lalr', lexer=lexer, postlex=SplitBB())
+        for text in ('a bb', 'a', 'a  bb', 'a\n bb'.replace('\n', ' ')):
+            try:
+                p.parse(text)
+                continue
+            except UnexpectedToken as e:
+                last = fed[-1]
+                ctx.count('postlex-eof', key=(lexer, text), nontrivial=True)
+                if e.token.type == '$END' and (e.line, e.column, e.pos_in_stream) != (last.line, last.column, last.start_pos):
+                    ctx.violation('postlex-eof', {'grammar': gs, 'text': text, 'lexer': lexer, 'kind': 'postlex-split'}, True,
+                                  '$END carries (%s,%s,%s); the last token fed by the postlexer was at (%s,%s,%s)' % (
+                                      e.line, e.column, e.pos_in_stream, last.line, last.column, last.start_pos))
+            except UnexpectedInput:
+                pass
+
+
 def replay(ctx, case):
     w = case['witness']
+    if w.get('kind') in ('custom-lexer', 'postlex-split'):
+        c2 = type(ctx)(ctx.prop, ctx.tier, ctx.seed)
+        try:
+            custom_lexer_stream(c2)
+            return any(v['stage'] in ('custom-lexer', 'postlex-eof') for v in c2.violations)
+        finally:
+            c2.cleanup()
     if 'rules' not in w:
         if w.get('reported_offset') is not None:
             from lark import Lark
